@@ -986,7 +986,7 @@ pub fn run_c12(cx: &Cx) -> PropResult {
     PropResult::new(
         acc,
         "exploration",
-        "cases = (element type E, element list xs with likely duplicates, source container S, target container D, size form): S in {Vec, &[E], [E;N], LinkedList, HashSet, BTreeSet, Rc<[E]>}, D in {Vec, [E;N], LinkedList, HashSet, BTreeSet}; lists of pairs <-> HashMap / BTreeMap / Vec<(K,V)>; byte containers Vec<u8>, &[u8], [u8;N], Bytes, Rc<[u8]> among themselves; forms: the writer's known-length form, the writer's unknown-length form (serialize_iterator over an iterator with an inexact size hint: unbounded (0, None) and bounded (lo, Some(hi)) with lo <= n <= hi as a filter adaptor reports) and the reference encoder's unknown-length form (of the list, or of the list and every sequence inside its elements); one case in 23 is a long list (up to 1100 leaves) or a list of up to 1100 small rows, with lengths taken around powers of two. The target is met at top level, as a field of a version-0 record between two siblings, or as a field in a chunk of its own of an evolved record (record bytes laid out by hand around S's bytes). Oracle: D decoded from S's bytes equals the elements as S wrote them (sequence equality for ordered targets, set/map equality with last-key-wins otherwise). Non-trivial = S != D or an unknown-length form, with a non-empty list.",
+        "cases = (element type E, element list xs with likely duplicates, source container S, target container D, size form): S in {Vec, &[E], [E;N], LinkedList, HashSet, BTreeSet, Rc<[E]>}, D in {Vec, [E;N], LinkedList, HashSet, BTreeSet}; lists of pairs <-> HashMap / BTreeMap / Vec<(K,V)>; byte containers Vec<u8>, &[u8], [u8;N], Bytes, Rc<[u8]> among themselves; forms: the writer's known-length form, the writer's unknown-length form (serialize_iterator over an iterator with an inexact size hint: unbounded (0, None) and bounded (lo, Some(hi)) with lo <= n <= hi as a filter adaptor reports) and the reference encoder's unknown-length form (of the list, or of the list and every sequence inside its elements); one case in 23 is a long list (up to 1100 leaves) or a list of up to 1100 small rows, with lengths taken around powers of two. The target is met at top level, as a field of a version-0 record between two siblings, or as a field in a chunk of its own of an evolved record (record bytes laid out by hand around S's bytes). Oracle: D decoded from S's bytes equals the elements as S wrote them (sequence equality for ordered targets, set/map equality with last-key-wins otherwise). Several text-keyed maps in one stream beside deduplicated strings, at the real static types Vec<HashMap<String, u8>> / Vec<BTreeMap<..>> / Vec<Vec<(String, u8)>> / Vec<LinkedList<..>>, every source read as every target. Non-trivial = S != D or an unknown-length form, with a non-empty list.",
     )
 }
 
